@@ -105,3 +105,25 @@ def window_complete_chunks(alphabet, n, lengths):
             if len(w) >= n:
                 out.append(w)
     return out
+
+
+def padded_cores(lengths=(24, 31, 40), pads=(0, 1, 3, 8), alphabet="+-0", n=4):
+    """Families that share a sub-structure: irregular cores (window-complete chunks, trimmed so that both ends are charged)
+    each embedded in every combination of left / right neutral padding - same core, different length and offset; emitted
+    core-major (all paddings of one core in a row) and then padding-major."""
+    cores = []
+    for w in window_complete_chunks(alphabet, n, lengths):
+        w = w.strip("0")
+        if len(w) >= 8 and w not in cores:
+            cores.append(w)
+    cores = cores[:: max(1, len(cores) // 6)][:6]
+    out = []
+    for c in cores:
+        for l in pads:
+            for r in pads:
+                out.append("0" * l + c + "0" * r)
+    for l in reversed(pads):
+        for r in pads:
+            for c in cores:
+                out.append("0" * l + c + "0" * r)
+    return out
